@@ -70,6 +70,26 @@ def same(a, b):
   return key_of(a) == key_of(b)
 
 
+def ref_text(v):
+  """Text / Choice conversion of a plain stored value, written from the documented rule (not the running function):
+  a finite float that is integral and below 2**53 in magnitude reads like the integer, other floats with 15
+  significant digits; everything else by str().  Returns (True, expected) or (False, None) for other kinds of values."""
+  import math
+  if v is None:
+    return True, None
+  if isinstance(v, bool) or isinstance(v, int):
+    return True, str(v)
+  if isinstance(v, str):
+    return True, v
+  if isinstance(v, float):
+    if math.isinf(v) or math.isnan(v):
+      return True, str(v)
+    if abs(v) < 2 ** 53 and v == int(v):
+      return True, str(int(v))
+    return True, '%.15g' % v
+  return False, None
+
+
 def colconv(col, v):
   """The column-level conversion, restated: the type's convert composed with the Reference(List)Column overrides."""
   import objtypes
@@ -173,6 +193,11 @@ def run_case(T, T2, vals, raw, two_way=False, doc=None):
     conv[r] = exp2
     if not same(got, old[r]):
       res['changed'] = True
+    if T2 in ('Text', 'Choice'):
+      known, ref = ref_text(old[r])
+      if known and not same(ref, got):
+        res['problems'].append(('cell-text-reference', 'row %d: stored %r, the %s conversion of the old value %r is %r'
+                                % (r, got, T2, old[r], ref)))
     if not same(exp, got):
       kind = 'cell'
       if T2.split(':')[0] in ('RefList', 'Attachments') and isinstance(exp, str) and exp.startswith('[') \
@@ -331,6 +356,15 @@ def cases(ctx):
     for T2 in ('Text', 'Any', 'Int', 'Bool', 'Numeric', 'Choice'):
       if T != T2:
         out.append({'T': T, 'T2': T2, 'raw': True, 'vals': list(runs), 'two_way': False})
+  # extreme numerics as SOURCE values; Text / Choice targets are compared with ref_text, the others with the conversion
+  big = [float(2 ** 53), -float(2 ** 53), float(2 ** 53 + 2), -float(2 ** 53 + 2), float(2 ** 53 - 1), -float(2 ** 53 - 1),
+         1e20, -1e20, 1.5e300, -1.5e300, -0.0, 0.0, float('inf'), float('-inf'), NAN, 2 ** 63, -2 ** 63 - 1, 2 ** 64,
+         2 ** 53, -2 ** 53, 123456789012345678.0, -123456789012345678.0, 1e15, -1e15, 2.5, -2.5, 1e16, -1e16]
+  for T in ('Numeric', 'Any', 'Int', 'Date'):
+    for T2 in ('Text', 'Choice', 'Int', 'Numeric', 'Any', 'Bool'):
+      if T != T2:
+        for raw in (False, True):
+          out.append({'T': T, 'T2': T2, 'raw': raw, 'vals': list(big), 'two_way': False})
   # texts that are almost JSON lists (leading / trailing white space, BOM, unbalanced): the list-valued columns' set()
   # must not read more into them than the types' conversions do
   near = [' ["a"]', '\n[3]', '\t[]', ' [1, 2]', '[1] ', '[1]\n', '\ufeff[1]', ' [', '[', '[1', ' ["a","b"] ', '[1, 2]',
@@ -528,7 +562,7 @@ PIN_DOCACTION = ['old_column = table.get_column(col_id)', 'new_column = table.ge
 
 # conversion functions whose result must depend on the type object and the value only (no state kept between calls):
 # canonical AST of the text the zone stream's reference was written against
-PIN_USERTYPES = {'BaseColumnType.convert': '1a0f3a55e506d43ff7768746546b79d3169b35af', 'Date.do_convert': '50a5f913f123d97c825b93bfb14860329fa124e4', 'DateTime.do_convert': 'a2a3e3a54caa085aa1943f8c077076f23e2cfbc7'}
+PIN_USERTYPES = {'BaseColumnType.convert': '1a0f3a55e506d43ff7768746546b79d3169b35af', 'BaseColumnType.do_convert': '288e7c16546d733163c2ba8fea5f53c82d3d827c', 'Text.do_convert': '1ba8603afa506cfd869bd93e91aca538f315908f', 'Blob.do_convert': '13f56e0ced4fd25bbd43eedfb2fdb9afe53fad96', 'Any.do_convert': '1dc4255eb1915ef1ac9ae12bbba142ff9b026c7a', 'Bool.do_convert': 'dd51a86128daca8170bd23c3e5fc83544027b676', 'Int.do_convert': '586a0d64ab09651f0f7d6954392254e86aea359b', 'Numeric.do_convert': 'fce5c9828919041e4c23ac3701fd19b6b0153278', 'Date.do_convert': '50a5f913f123d97c825b93bfb14860329fa124e4', 'DateTime.do_convert': 'a2a3e3a54caa085aa1943f8c077076f23e2cfbc7', 'ChoiceList.do_convert': '5fbf520002f15bd5541b132e9e6cafb00992e56a', 'PositionNumber.do_convert': 'ac5361599a755a8797600bbc72bb4439864284c0', 'Id.do_convert': 'd62c6e2710c81d56c9be4a828405f0b28cf3d292', 'ReferenceList.do_convert': '8b226049444bc349b929e343d98e3c6b19767a02'}
 
 # the storing normalisations (set / _clean_up_value) and column-level conversions the set-neutrality facts are about
 PIN_COLUMN = {'BaseColumn.set': '246cdfdfe449c374b3a7e7daafa679c28acf6bab', 'BoolColumn.set': 'a2315f2289f6a6a3cbcc2f2cf981d07df273f5f8', 'NumericColumn.set': '53bdd913d9351c5be16cb811b4ee8e83a5130a7f', 'ChoiceListColumn.set': 'ddebe7d16915b77c81bd05e23cd32b6b59bdbc0c', 'BaseReferenceColumn.set': '991a34221c9b3ea6dc97e3a27c32ea3784b74a53', 'ReferenceColumn._clean_up_value': 'b9a940d711abc1e30a1b3ae40396ffb02a3bdca0', 'ReferenceListColumn._clean_up_value': 'c1d2c8882771f588dff966699e0c50792c9e4ebb', 'BaseColumn.raw_get': '8bd24ee5b3c3f853b217a08aed86f760d0a22d28', 'BaseColumn.convert': '0633c3a472687c3bfbc068f06874824f765e21cd', 'ReferenceColumn.convert': '2e56dd4c07f48b708fbc9a335a82aab57815198a', 'ReferenceListColumn.convert': '594b1b6aef7bce87b8f407608dd7c899ee3e223b'}
